@@ -13,8 +13,9 @@
      values        : PLAIN (encode_plain) of the non-null cells, or for a categorical the codes of the
                      non-null cells as WLevels.wr_dict_indices k (k = bytes of the codes' dtype: 1, 2, 4)
    The serialisation of the PageHeader structs is the specification writer of the compact protocol (C10 proves
-   the native serialiser equal to it on the IDL's structs).  BOOLEAN PLAIN columns (np.packbits with the extra
-   padding byte) are not part of this model (WLevels.wr_bools models them at block level).                    *)
+   the native serialiser equal to it on the IDL's structs).  BOOLEAN values (and boolean dictionary labels)
+   are PLAIN as the writer packs them: np.packbits after np.pad - one padding byte too many when 8 | n
+   (w_plain, WLevels.wr_bools).                                                                              *)
 From Coq Require Import NArith ZArith List Bool.
 From Pq Require Import Base.Bytes Base.ListX Codec.Varint Codec.Bitpack Codec.Hybrid Thrift.Compact
   Format.Phys Format.Meta Format.Page Format.Enc Impl.WLevels Impl.WPagesFmt.
@@ -43,9 +44,13 @@ Definition w_defs (c : wchunk) (p : wpage) : bytes :=
   if w_nonnull p =? w_rows p then (if wc_v2 c then wr_defs_nonull_v2 (w_rows p) else wr_defs_nonull_v1 (w_rows p))
   else (if wc_v2 c then wr_defs_nulls_v2 (w_mask p) else wr_defs_nulls_v1 (w_mask p)).
 
+(* encode_plain *)
+Definition w_plain (t : ptype) (vs : list value) : bytes :=
+  match t with BOOLEAN => wr_bools (map num_of vs) | _ => plain_enc t vs end.
+
 Definition w_values (c : wchunk) (p : wpage) : bytes :=
   match p with
-  | WPlainP cells => plain_enc (wc_type c) (somes cells)
+  | WPlainP cells => w_plain (wc_type c) (somes cells)
   | WDictP codes => wr_dict_indices (wc_k c) (somes codes)
   end.
 Definition w_enc (p : wpage) : Z := match p with WPlainP _ => E_PLAIN | WDictP _ => E_RLE_DICT end.
@@ -71,7 +76,7 @@ Definition w_data_page (c : wchunk) (p : wpage) : phdr * bytes :=
      payload).
 
 Definition w_dict_page (c : wchunk) (labels : list value) : phdr * bytes :=
-  let raw := plain_enc (wc_type c) labels in
+  let raw := w_plain (wc_type c) labels in
   let payload := deflate compress (wc_codec c) raw in
   ({| ph_usize := Z.of_N (lenN raw); ph_csize := Z.of_N (lenN payload); ph_crc := None;
       ph_body := PBDict {| k_nvals := Z.of_N (lenN labels); k_enc := E_PLAIN; k_sorted := None |} |}, payload).
